@@ -620,11 +620,11 @@ class Hdf5Saver:
         if state is not None:
             self.save(state, subpath + 'state')
         if listitems is not None:
-            self.save(state, subpath + 'listitems')
+            self.save(list(listitems), subpath + 'listitems')  # iterator of items
         if dictitems is not None:
-            self.save(state, subpath + 'dictitems')
+            self.save(list(dictitems), subpath + 'dictitems')  # iterator of (key, value) pairs
         if state_setter is not None:
-            self.save(state, subpath + 'state_setter')
+            self.save(state_setter, subpath + 'state_setter')
         return h5gr
 
     # save_reduce is called directly from `save()`, not dispatched.
@@ -1201,8 +1201,7 @@ class Hdf5Loader:
             state = self.load(subpath + 'state')
             if 'state_setter' in h5gr:
                 state_setter = self.load(subpath + 'state_setter')
-                obj = state_setter(obj, state)
-                self.memorize_load(h5gr, obj)  # overwrites old memo entry
+                state_setter(obj, state)  # return value is discarded, as in pickle
             else:
                 # see pickle._Unpickler.load_build
                 setstate = getattr(obj, '__setstate__', None)
